@@ -37,4 +37,4 @@ theorem C02_cubic_partial {K : Type} [Field K] [LinearOrder K] [IsStrictOrderedR
 /-- non-vacuity of the pivot hypothesis: a concrete quintic problem with 3 segments satisfies it -/
 example : QuinticK.QuinticPivOK ([1, 2, 1/2] : List ℚ) [0, 1, 3, 2] ⟨0, 0⟩ ⟨1, 0⟩ := by
   simp only [QuinticK.QuinticPivOK, Quintic.rows, Quintic.mkSegs, Quintic.rowsAux, BPivOK]
-  refine ⟨?_, ?_, trivial⟩ <;> (apply M2.mul_inv; simp [M2.det, M2.sub_def, M2.mul_def, M2.inv, Quintic.blockD, Quintic.blockL, Quintic.blockU, Quintic.mkTP]; norm_num)
+  refine ⟨?_, ?_, trivial⟩ <;> (apply M2.mul_inv; simp [M2.det, M2.sub_def, M2.mul_def, M2.inv, Quintic.blockD, Quintic.blockL, Quintic.blockU, Quintic.mkTP]; show ((_ : ℚ) ≠ 0); norm_num)
